@@ -983,8 +983,10 @@ class Watcher(object):
         yield self.spawn_processes()
 
         # If not self.processes, the before_spawn or after_spawn hooks have
-        # probably prevented startup so give up
-        if not self.processes or not self.call_hook('after_start'):
+        # probably prevented startup so give up (a watcher configured with
+        # numprocesses = 0 has nothing to spawn: that is not a failure)
+        if (not self.processes and self.numprocesses > 0) \
+                or not self.call_hook('after_start'):
             logger.debug('Aborting startup')
             # stop streams too since we are bailing on this watcher completely
             yield self._stop(True)
